@@ -1040,6 +1040,21 @@ class KindInterp:
                         args, kwargs = self.args(e, env)
                         return self.call_fn(Fn(r.node, {}, self_obj=self_obj, owner=r.owner), args, kwargs, e)
             return Unknown(f'super().{f.attr} does not resolve')
+        # getattr(obj, f'<prefix>{...}<suffix>'[, default]): one of the methods of the object named that way
+        if isinstance(f, ast.Name) and f.id == 'getattr' and 'getattr' not in env and len(e.args) in (2, 3) and isinstance(e.args[1], ast.JoinedStr):
+            target = self.eval(e.args[0], env)
+            parts = e.args[1].values
+            holes = [v for v in parts if isinstance(v, ast.FormattedValue)]
+            if isinstance(target, Obj) and len(holes) == 1 and all(isinstance(v, (ast.Constant, ast.FormattedValue)) for v in parts):
+                i = parts.index(holes[0])
+                prefix = ''.join(v.value for v in parts[:i])
+                suffix = ''.join(v.value for v in parts[i + 1:])
+                names = sorted({n for k in target.cls.mro for n, d in k.own.items() if isinstance(d, ast.FunctionDef) and n.startswith(prefix) and n.endswith(suffix) and len(n) > len(prefix) + len(suffix)})
+                out = None
+                for n in names:
+                    out = join(out, self.obj_attr(target, n, e))
+                if out is not None:
+                    return out
         fv = self.eval(f, env)
         args, kwargs = self.args(e, env)
         if isinstance(f, ast.Attribute) and f.attr == 'astype' or (isinstance(fv, ExternFn) and fv.name.endswith('.astype')):
